@@ -1,11 +1,18 @@
 """C06 — nufft approximates the non-uniform DFT to its stated accuracy; nufft_adjoint is its exact adjoint.
 
 level: proof (partial): structure is proved about the translator-generated formulas — scalings, centre, periodicity;
-`nufft_adjoint` = `nufft`^H for the concrete 1-D and 2-D pipelines with every stage fact discharged from C05 / C09 / C07
-(only assumptions: real apodisation weights, real-valued kernel); the Toeplitz normal operator (`toeplitz_psf`,
-`NUFFT._normal_linop`): A^H A of the exact NUDFT is Toeplitz and R^H F^H diag(p) F R reproduces any Toeplitz operator
-exactly (sigpy's centred conventions).  The accuracy bound itself (and the accuracy of the computed psf) is analytic and
-only MEASURED by the search oracle.
+`nufft_adjoint` = `nufft`^H for the concrete pipelines in 1, 2 and 3 transform dimensions with a leading (flattened) batch axis
+of any length, every stage fact discharged from C05 / C09 / C07 and composed axis by axis (Props/C06Batch.lean); the weights
+`_apodize` computes are proved real (`apodWeight_real`), and the (K, wt) parametrisation of the generated weights is proved to
+cover separable real kernels such as Kaiser-Bessel in 2-D / 3-D (Props/C06Kernel.lean); the Toeplitz normal operator
+(`toeplitz_psf`, `NUFFT._normal_linop`): A^H A of the exact NUDFT is Toeplitz and R^H F^H diag(p) F R reproduces any Toeplitz
+operator exactly in 1, 2 and 3 dimensions by per-axis composition (sigpy's centred conventions, Props/C06ToeplitzNd.lean);
+the exact NUDFT reference: period, shift / modulation covariance, and the ERROR IDENTITY of the generated pipelines
+(`nufft1_eq_nudft_times_kernel`, `nufft1B_...`, `nufft2_...`, `nufft3B_eq_nudft_times_kernel`: every NUDFT term is multiplied
+by apodisation x the product over the axes of the discrete-time Fourier sums of the kernel samples, kernel as a parameter;
+`nufft1_row_error(_le)` / `row_error_phases`: the row error the oracle measures reduces to a kernel-only quantity;
+`nufft1B_per_item` / `nufft3B_per_item`: a batched transform is the same linear map on every item), Props/C06Nudft*.lean.  The accuracy bound itself (a property of Kaiser-Bessel / Beatty's beta) and the accuracy of
+the computed psf are analytic and only MEASURED by the search oracle.
 """
 import json
 import math
@@ -18,7 +25,10 @@ from harness import common
 from harness.translate import gen as G
 
 PROPERTY = "C06"
-LEAN_MODULES = ["SigpyVerif.Props.C06", "SigpyVerif.Props.C06Nd", "SigpyVerif.Props.C06Toeplitz"]
+LEAN_MODULES = ["SigpyVerif.Props.C06", "SigpyVerif.Props.C06Nd", "SigpyVerif.Props.C06Toeplitz",
+                "SigpyVerif.Props.C06Batch", "SigpyVerif.Props.C06ToeplitzNd", "SigpyVerif.Props.C06Nudft",
+                "SigpyVerif.Props.C06Kernel", "SigpyVerif.Props.C06NudftBatch", "SigpyVerif.Props.C06Nudft2d",
+                "SigpyVerif.Props.C06Nudft3d"]
 THEOREMS = ["SigpyVerif.C06." + t for t in [
     "os_sites_agree", "oversampLen_ge", "scaleCoord_period", "nufft_periodic1", "nufft_periodic2", "nufft_periodic3",
     "nudft_periodic", "grid_centre_consistency", "crop_centre_consistency", "dc_lands_on_centre",
@@ -34,6 +44,37 @@ THEOREMS = ["SigpyVerif.C06." + t for t in [
     "toep_embed_len", "toep_coord_doubled", "toep_delta_on_centre", "toep_final_mul", "toeplitz_checked",
     "nudft_gram_toeplitz", "toep_psf_is_kernel", "circulant_diagonalised", "toeplitz_embedding_exact",
     "toeplitz_structure",
+    # leading batch axes and three transform axes (Props/C06Batch.lean): adjointness composed axis by axis
+    "adjScaled_one", "adjScaled_kron", "adjScaled_dft", "inner_of_adjScaled", "bx1_inj", "bx2_inj", "bx3_inj",
+    "resize1B_adjoint", "ufft1B_adjoint", "interp1B_adjoint", "nufft_adjoint_is_adjoint_1d_batch",
+    "resize2B_adjoint", "ufft2B_adjoint", "interp2B_adjoint", "nufft_adjoint_is_adjoint_2d_batch",
+    "resize3B_adjoint", "ufft3B_adjoint", "interp3B_adjoint", "nufft_adjoint_is_adjoint_3d_batch",
+    "nufft_adjoint_is_adjoint_3d", "nufft_adjoint_is_adjoint_3d_code",
+    "interp1_batch_diagonal", "interp2_batch_diagonal", "interp3_batch_diagonal",
+    # the weights `_apodize` computes are real (removes the "real weights" assumption for the code's formula)
+    "csqrt_div_sinh_real", "apodWeight_real", "apodWeight_eq_re", "apodize3_is_real_diagonal",
+    # N-d Toeplitz embedding by per-axis composition (Props/C06ToeplitzNd.lean)
+    "circ_entry", "circDiag_axis", "circDiag_kron", "embed_entry", "lag_pad", "pad_axis_iff",
+    "resizeMatNd_pad2", "resizeMatNd_crop2", "resizeMatNd_pad3", "resizeMatNd_crop3",
+    "toeplitz_embedding_exact_2d", "toeplitz_embedding_exact_3d", "nudft_gram_toeplitz_2d", "nudft_gram_toeplitz_3d",
+    "toeplitz_structure_2d", "toeplitz_structure_3d",
+    # the exact NUDFT reference and the error identity of the generated 1-D pipeline (Props/C06Nudft.lean)
+    "nudftTerm_shift", "nudftTerm_modulation", "nudftTerm_norm", "nudftOn_shift", "nudft_add", "nudft_smul",
+    "nudft_periodic_coord", "nudft_modulation", "nudft_row_normSq", "wrapIdx_val", "interpLin_apply",
+    "ufft_resize_apply", "root_wrap", "fftRoot_zpow", "kernelArgs_spec", "kernelSum_shift", "phase_split",
+    "sum_list_comm", "list_sum_factor", "nufft1_eq_nudft_times_kernel", "nufft1_error_identity", "nufft1_error_le",
+    "nufft1_row_error", "nufft1_row_error_le",
+    # the (K, wt) parametrisation of the 2-D / 3-D weights covers separable REAL kernels such as Kaiser-Bessel (Props/C06Kernel.lean)
+    "decQ_encode", "val235", "natAbs_num_natCast", "sep_encoding2", "sep_encoding3", "interp2_weights_separable",
+    "interp3_weights_separable", "nufft_adjoint_is_adjoint_3d_batch_separable",
+    # batched 1-D pipeline entry by entry: the same linear map on every batch item (Props/C06NudftBatch.lean)
+    "interpLin1B_apply", "ufft_resize1B_apply", "nufft1B_eq_nudft_times_kernel", "nufft1B_per_item",
+    # the error identity of the generated 2-D pipeline, separable weights (Props/C06Nudft2d.lean)
+    "list_sum_flatMap", "list_sum_mul_sum", "list_sum2_factor", "interpLin2_apply", "resizeMatNd_padG2",
+    "ufft_resize2_apply", "nufft2_eq_nudft_times_kernel", "nufft2_error_identity", "row_error_phases",
+    # the batched 3-D pipeline entry by entry: error identity + the same map on every batch item (Props/C06Nudft3d.lean)
+    "list_sum3_factor", "interpLin3B_apply", "resizeMatNd_padG3B", "ufft_resize3B_apply",
+    "nufft3B_eq_nudft_times_kernel", "nufft3B_per_item",
 ]]
 
 # Toeplitz normal operator (search oracle): A.N(x) against A.H(A(x)) for NUFFT(..., oversamp=2, width=w, toeplitz=True).
@@ -262,34 +303,174 @@ def _reified_stream(ctx):
     return bad
 
 
+def _kb_kernel():
+    from sigpy import interp
+    f = interp._kaiser_bessel_kernel
+    return getattr(f, "py_func", f)
+
+
+def _identity_stream(ctx):
+    """End-to-end tie of the pipeline model of the theorems `nufft1_eq_nudft_times_kernel` / `nufft_adjoint_is_adjoint_*`:
+    the matrix of the REAL `sp.nufft` (and of `sp.nufft_adjoint`) against the theorem's right-hand side
+        A[j, n] = prod_d N_d^-1/2 exp(-2 pi i k_jd nu_d / N_d) * a_d(nu_d) * S_d(kappa_jd, nu_d),   nu_d = n_d - N_d//2,
+        S_d = (1/W) sum_i K(arg_i) exp(-2 pi i (i - kappa) nu_d / L_d)
+    where L_d, kappa_jd, the wrapped grid indices and the kernel arguments arg_i come from the DRIVER (the generated
+    `Gen.oversampLen` / `Gen.scaleCoord` / `Gen.interp1`, Model/C06.lean `kernelArgs`, = `kernelSum` by `kernelArgs_spec`),
+    the kernel values K(arg) are sigpy's own `_kaiser_bessel_kernel` (its accuracy is C07's business) and a_d is the
+    apodisation formula with the model's centre / length.  1-D is the theorem; 2-D / 3-D use the product form."""
+    from sigpy import fourier
+    rng = ctx.rng
+    kb = _kb_kernel()
+    bad = 0
+    worst = 0.0
+    cases = []
+    for _ in range(16 if ctx.tier == "quick" else 120):
+        nd = rng.choice([1, 1, 2, 3])
+        shape = [rng.randint(1, [0, 12, 6, 4][nd]) for _ in range(nd)]
+        npts = rng.choice([1, 2, 4])
+        kind = rng.choice(["random", "on-grid", "half-integer", "out-of-range"])
+        coord = []
+        for _j in range(npts):
+            row = []
+            for N in shape:
+                if kind == "random":
+                    v = Fraction(rng.randint(-8 * N, 8 * N), 16)
+                elif kind == "on-grid":
+                    v = Fraction(rng.randint(-(N // 2), N - N // 2 - 1))
+                elif kind == "half-integer":
+                    v = Fraction(2 * rng.randint(-(N // 2), N - N // 2 - 1) + 1, 2)
+                else:
+                    v = Fraction(rng.randint(-8 * N, 8 * N), 16) + rng.choice([-3, -1, 1, 2, 17]) * N
+                row.append(v)
+            coord.append(row)
+        cases.append((shape, rng.choice(OVERSAMPS), rng.choice(WIDTHS), coord, kind))
+    lines = []
+    for shape, os_, w, coord, kind in cases:
+        for row in coord:
+            for N, v in zip(shape, row):
+                lines.append("C06 kernelsum os=%s n=%d c=%s width=%d" % (R(os_), N, R(v), w))
+    replies = ctx.driver(lines)
+    k = 0
+    for shape, os_, w, coord, kind in cases:
+        nd, npts = len(shape), len(coord)
+        rs = replies[k:k + nd * npts]
+        ln0 = lines[k]
+        k += nd * npts
+        ctx.case(("identity", tuple(shape), os_, w, kind, tuple(tuple(r) for r in coord)),
+                 sample=dict(line=ln0, reply=rs[0]) if ctx.evaluations % 7 == 0 else None)
+        ctx.count("identity:ndim%d" % nd)
+        ctx.count("identity:%s" % kind)
+        beta = beta_of(w, os_)
+        why = None
+        tie = False
+        try:
+            model = np.ones((npts,) + tuple(shape), dtype=np.complex128)
+            for j, row in enumerate(coord):
+                for d, (N, v) in enumerate(zip(shape, row)):
+                    r = rs[j * nd + d]
+                    if not r.startswith("ok "):
+                        raise ValueError("model " + r)
+                    pL, pk, psrc, parg = r[3:].split()
+                    L, kappa = int(pL), Fraction(pk)
+                    srcs = [] if psrc == "-" else [int(t) for t in psrc.split(",")]
+                    args = [] if parg == "-" else [Fraction(t) for t in parg.split(",")]
+                    # the real code evaluates the window on ITS float scaled coordinate (`_scale_coord` of the tree under
+                    # test): when that differs from the model's exact kappa by rounding only and the rounding moves a window
+                    # edge across an integer, the input is outside what exact arithmetic decides (see `_edge_flip`);
+                    # a scaled coordinate that differs by more than rounding is a disagreement
+                    kf = float(fourier._scale_coord(np.array([[float(t) for t in row]]), shape, os_)[0, d])
+                    if abs(kf - float(kappa)) > 1e-9 * (1 + abs(float(kappa))):
+                        raise ValueError("_scale_coord gives %r, model kappa %s (axis %d, coordinate %s)" % (kf, kappa, d, v))
+                    if (math.ceil(kf - w / 2), math.floor(kf + w / 2)) != (math.ceil(kappa - Fraction(w, 2)), math.floor(kappa + Fraction(w, 2))):
+                        tie = True
+                    idx = [a * Fraction(w, 2) + kappa for a in args]
+                    if any(i.denominator != 1 for i in idx) or [int(i) % L for i in idx] != srcs:
+                        raise ValueError("driver window indices / wrap inconsistent: %s vs %s" % (idx, srcs))
+                    nu = np.arange(N) - N // 2
+                    S = np.zeros(N, dtype=np.complex128)
+                    for a in args:
+                        S += float(kb(float(a), beta) or 0.0) * np.exp(-2j * np.pi * float(a * Fraction(w, 2)) * nu / L)
+                    S /= w
+                    aa = (beta ** 2 - (math.pi * w * nu.astype(np.complex128) / L) ** 2) ** 0.5
+                    apod = (aa / np.sinh(aa)).real
+                    fac = N ** -0.5 * np.exp(-2j * np.pi * float(v) * nu / N) * apod * S
+                    model[j] = model[j] * fac.reshape([N if e == d else 1 for e in range(nd)])
+            if tie:
+                ctx.count("identity:skipped-window-edge-tie")
+                continue
+            c = dict(shape=shape, pts=[npts], os=os_, width=w)
+            co = np.array([[float(v) for v in row] for row in coord], dtype=np.float64).reshape(npts, nd)
+            A, AH = impl_matrices(c, coord=co)
+            Mm = model.reshape(npts, -1)
+            nM = np.linalg.norm(Mm)
+            if A.shape == Mm.shape and AH.shape == Mm.T.shape:
+                worst = max(worst, float(np.linalg.norm(A - Mm) / nM), float(np.linalg.norm(AH - Mm.conj().T) / nM))
+            if A.shape != Mm.shape or not np.linalg.norm(A - Mm) <= 1e-9 * nM:
+                why = "nufft matrix differs from NUDFT x (apodisation x kernel sum): rel %.3g" % (np.linalg.norm(A - Mm) / nM)
+            elif AH.shape != Mm.T.shape or not np.linalg.norm(AH - Mm.conj().T) <= 1e-9 * nM:
+                why = "nufft_adjoint matrix differs from the conjugate transpose of the model matrix: rel %.3g" % (
+                    np.linalg.norm(AH - Mm.conj().T) / nM)
+        except Exception as e:  # noqa
+            why = "exception %r" % (e,)
+        if why:
+            bad += 1
+            ctx.disagree("identity", dict(reified_shape=shape, os=os_, width=w, batch=[],
+                                          coord=[[str(v) for v in row] for row in coord]), why, rs[0][:200])
+    ctx.notes.append("identity: worst relative deviation of the real nufft / nufft_adjoint matrices from the model matrix "
+                     "(NUDFT x apodisation x kernel sum): %.3g (tolerance 1e-9)" % worst)
+    return bad
+
+
 def correspond(ctx):
     ctx.rule = ("formulas: (oversamp, N) pairs, oversamp in {1.25,1.5,2} + non-dyadic + random floats, N = 1..40(130) + random to 4000, "
                 "against the real _get_oversamp_shape/_scale_coord; apodize: random shapes 1-3 D x oversamp x width against the "
                 "formula with the model's centre and length; reified: real nufft/nufft_adjoint runs with recording wrappers "
-                "(os_shape, scaled coords, kernel/width/beta handed over, scalings via centre deltas). distinct by all parameters")
+                "(os_shape, scaled coords, kernel/width/beta handed over, scalings via centre deltas); identity: random shapes 1-3 D "
+                "x oversamp x width x 1-4 points (random sixteenths, on-grid, half-integer, out-of-range): the matrices of the real "
+                "nufft / nufft_adjoint against NUDFT x apodisation x kernel sum built from the driver's window data. "
+                "distinct by all parameters")
     bad = _formula_stream(ctx)
     ctx.oblige("correspondence:C06.formulas", "correspondence", bad == 0, "%d disagreements" % bad)
     bad = _apod_stream(ctx)
     ctx.oblige("correspondence:C06.apodize", "correspondence", bad == 0, "%d disagreements" % bad)
     bad = _reified_stream(ctx)
     ctx.oblige("correspondence:C06.reified", "correspondence", bad == 0, "%d disagreements" % bad)
+    bad = _identity_stream(ctx)
+    ctx.oblige("correspondence:C06.identity", "correspondence", bad == 0, "%d disagreements" % bad)
     ctx.traces = ctx.evaluations
     ctx.notes.append("level: proof, PARTIAL — scalings, centre, periodicity are theorems about the generated formulas; adjointness is proved "
-                     "for the concrete 1-D / 2-D pipelines built from C05's DFT matrices, C09's resize relation and C07's generated update "
-                     "lists (nufft_adjoint_is_adjoint_1d / _2d: no stage hypothesis left); toeplitz_psf / NUFFT._normal_linop: call structure "
-                     "extracted by the translator, embedding formulas proved, A^H A Toeplitz and the circulant embedding exact "
-                     "(toeplitz_embedding_exact, centred conventions).  The 3 % / 0.3 % accuracy bound is measured by the search oracle "
+                     "for the concrete pipelines in 1 / 2 / 3 transform dimensions with a leading batch axis of any length, built from C05's DFT "
+                     "matrices (1_B (x) U_L1 (x) .. (x) U_Ld, adjointness composed axis by axis), C09's N-d resize relation on the full shapes and "
+                     "C07's generated update lists Gen.interp1/2/3, Gen.grid1/2/3 with batch_size = B (nufft_adjoint_is_adjoint_{1,2,3}d_batch, "
+                     "_3d, _3d_code: no stage hypothesis left); apodWeight_real: the weights of the _apodize formula are real; "
+                     "interp{2,3}_weights_separable: the (K, wt) parametrisation covers separable real kernels (Kaiser-Bessel) in 2-D / 3-D; "
+                     "toeplitz_psf / NUFFT._normal_linop: call structure extracted by the translator, embedding formulas proved, A^H A Toeplitz and "
+                     "the circulant embedding exact in 1, 2 and 3 dimensions by per-axis composition (toeplitz_embedding_exact(_2d/_3d), "
+                     "circDiag_kron).  Exact NUDFT: nudft_periodic_coord, nudftOn_shift, nudft_modulation; error identity of the generated 1-D "
+                     "pipeline with the kernel as a parameter (nufft1_eq_nudft_times_kernel, nufft1_error_identity, kernelSum_shift, "
+                     "nufft1_row_error, nufft1_row_error_le): the measured relative row error IS sqrt(mean_n |a_n S(kappa, n - N//2) - 1|^2); the same identity "
+                     "for the batched 1-D, the 2-D and the batched 3-D generated pipelines with the product of the per-axis kernel sums "
+                     "(nufft1B_/nufft2_/nufft3B_eq_nudft_times_kernel, separable weights: hypothesis hsep, satisfiable for any real kernels by "
+                     "sep_encoding2/3) and nufft1B_per_item / nufft3B_per_item (a batched transform acts as the same map on every item), "
+                     "so the stated accuracy reduces to a bound on Kaiser-Bessel alone.  That bound (3 % / 0.3 %) is measured by the search oracle "
                      "(per-coordinate row error of the implementation matrix against the exact NUDFT), not proved; likewise the accuracy of the "
                      "COMPUTED psf (Kaiser-Bessel nufft of a unit sample, complex64): oracle only (A.N(x) vs A.H(A(x)) at oversamp=2, width 7/8, 3e-4)")
     ctx.assumptions += [
-        "the accuracy bound (3 % / 0.3 %) is analytic and NOT proved: it is measured against the exact NUDFT by the search oracle",
-        "nufft_adjoint_is_adjoint_1d/_2d assume only: the apodisation weights are real (checked numerically in the apodize stream) and the "
-        "interpolation kernel is a real-valued function of its argument (Kaiser-Bessel: sqrt/I0 of reals); the FFT / resize / gridding stage "
+        "the accuracy bound (3 % / 0.3 %) is analytic and NOT proved: it is measured against the exact NUDFT by the search oracle; what is "
+        "proved is its reduction to the kernel-only quantity |a_n prod_d S_d(kappa_d, nu_d) - 1| (generated 1-D, batched 1-D, 2-D and batched 3-D "
+        "pipelines); the Poisson-summation (sum over aliases) form of S and the bound on S for Kaiser-Bessel are not proved",
+        "nufft_adjoint_is_adjoint_* assume only: real apodisation weights (proved for the _apodize formula: apodWeight_real; that _apodize IS that "
+        "formula is checked syntactically by the translator and numerically by the apodize stream) and interpolation weights that are a real "
+        "function of the generated rational weight (covers Kaiser-Bessel: interp{2,3}_weights_separable); the FFT / resize / gridding stage "
         "facts are imported theorems of C05 / C09 / C07 (their own models are tied to numpy / the source by those properties' checks); "
-        "3-D composes identically (Gen.interp3, triple Kronecker product) and is not written out; batch axes are the same map per item (oracle)",
-        "toeplitz_embedding_exact / toeplitz_structure are about the EXACT kernel t; that the psf computed by toeplitz_psf (approximate nufft "
-        "/ nufft_adjoint of a unit sample, complex64) is close to t is oracle-only (C06:toeplitz.normal)",
-        "float evaluation of ceil(oversamp*N): the model is evaluated at the effective rational oversamp fl(os*N)/N (identical for dyadic oversamp)",
+        "leading batch axes are modelled as ONE flattened axis of length B = prod(batch) (what interpolate / gridding do: C07 "
+        "ravel_batch_flatten; per-item action proved for the flattened axis in 1-D and 3-D: nufft1B_per_item, nufft3B_per_item); that resize / fft / "
+        "_apodize act per item on an UNflattened batch shape is oracle-only (C06:batch)",
+        "toeplitz_embedding_exact(_2d/_3d) / toeplitz_structure(_2d/_3d) are about the EXACT kernel t and one batch item; that the psf computed by "
+        "toeplitz_psf (approximate nufft / nufft_adjoint of a unit sample, complex64) is close to t is oracle-only (C06:toeplitz.normal)",
+        "float evaluation of ceil(oversamp*N): the model is evaluated at the effective rational oversamp fl(os*N)/N (identical for dyadic oversamp); "
+        "identity stream: the kernel VALUES are sigpy's own _kaiser_bessel_kernel (accuracy: C07), inputs where float rounding of the scaled "
+        "coordinate moves a window edge across an integer are skipped and counted",
     ]
 
 
